@@ -351,6 +351,15 @@ func proofToPath(
 		if !ok {
 			return nil, fmt.Errorf("proof node not found, expected hash: %s", hash.String())
 		}
+		// The node set is untrusted input: the node must really hash to the key it is filed under.
+		// (The single-element and empty-range paths never recompute the root, so this is their only check.)
+		got, err := proofNodeHash(n, crypto.Pedersen)
+		if err != nil {
+			return nil, err
+		}
+		if !got.Equal(hash) {
+			return nil, fmt.Errorf("proof node hash mismatch, expected hash: %s, got hash: %s", hash.String(), got.String())
+		}
 		return n, nil
 	}
 
